@@ -112,3 +112,49 @@ func VxC02EventLeafHash() {
 	vx.Assert(vxSameFelts(ea.Keys, eb.Keys), "keys-committed")
 	vx.Assert(vxSameFelts(ea.Data, eb.Data), "data-committed")
 }
+
+// The transaction leaf of the transaction commitment (hash and signature) for the three arms:
+// Pedersen (< 0.13.2, version >= 0.11.1), Poseidon 0.13.2 and Poseidon 0.13.4. Known protocol
+// identifications are part of the oracle: in 0.13.2 an empty signature is hashed as [0] (so it is
+// indistinguishable from the one-element signature [0]); 0.13.4 hashes it as [].
+func vxTxLeaf(arm int, tx Transaction) felt.Felt {
+	var got felt.Felt
+	run := func(height uint8, do func(Trie) error) error { return do(vxCaptureTrie{&got}) }
+	backend := TempTrieBackend{RunOnTempTriePedersen: run, RunOnTempTriePoseidon: run}
+	switch arm {
+	case 0:
+		_, _ = transactionCommitmentPedersen([]Transaction{tx}, "0.12.3", backend)
+	case 1:
+		_, _ = transactionCommitmentPoseidon0132([]Transaction{tx}, backend)
+	default:
+		_, _ = transactionCommitmentPoseidon0134([]Transaction{tx}, backend)
+	}
+	return got
+}
+
+func VxC02TransactionLeafHash() {
+	vx.Bound("two invoke transactions with arbitrary hashes and signatures of 0..2 arbitrary elements; commitment arms Pedersen (0.12.3), Poseidon 0.13.2, Poseidon 0.13.4")
+	arm := vx.Choice("arm", 3)
+	mk := func(tag string) *InvokeTransaction {
+		return &InvokeTransaction{TransactionHash: vxFelt(tag + "hash"), TransactionSignature: vxFelts(tag+"sig", 2)}
+	}
+	a, b := mk("a."), mk("b.")
+	h1, h2 := vxTxLeaf(arm, a), vxTxLeaf(arm, b)
+	vx.CollisionFree()
+	if !h1.Equal(&h2) {
+		return
+	}
+	vx.Cover("hashes-equal")
+	vx.Assert(a.TransactionHash.Equal(b.TransactionHash), "transaction-hash-committed")
+	sa, sb := a.TransactionSignature, b.TransactionSignature
+	if arm == 1 {
+		// 0.13.2: [] is hashed as [0]
+		if len(sa) == 0 {
+			sa = []felt.Felt{felt.Zero}
+		}
+		if len(sb) == 0 {
+			sb = []felt.Felt{felt.Zero}
+		}
+	}
+	vx.Assert(vxSameFelts(sa, sb), "signature-committed")
+}
